@@ -50,6 +50,8 @@ FUNCTIONS = [
     ('filter_process', 'dataflows.processors.filter_rows', ['process_resource']),
     ('deduper', 'dataflows.processors.deduplicate', ['deduper']),
     ('unpivot_rows', 'dataflows.processors.unpivot', ['unpivot_rows']),
+    # add_computed_field: the declared type of a computed field
+    ('computed_get_type', 'dataflows.processors.add_computed_field', ['get_type']),
     # select_fields: which schema fields are selected, in which order (the loops over the patterns and the remaining names)
     ('select_schema_loop', 'dataflows.processors.select_fields', ['select_fields', 'func', '@for:0', '@if:0', '@for:0']),
     # delete_fields: which schema fields stay (the package phase's loop over the fields of a selected resource)
